@@ -132,6 +132,7 @@ type GenParams struct {
 	AllowText                                                                                     bool
 	SmallEfC                                                                                      bool // efConstruction 8 so that batches of >=8 take the parallel path
 	BigBatch                                                                                      bool
+	RecreatePct                                                                                   int // after a drop of an existing index: percentage of cases in which the same name is created again at once and written to
 }
 
 // shadow state kept by the generator only to bias towards valid / interesting ops
@@ -346,6 +347,7 @@ func GenHistory(p GenParams) *rapid.Generator[[]Op] {
 				k = KCreate
 			}
 			invalid := rapid.IntRange(0, 99).Draw(t, "inv") < p.InvalidPct
+			dropExisted := false
 			op := Op{K: k}
 			switch k {
 			case KKVSet:
@@ -377,6 +379,7 @@ func GenHistory(p GenParams) *rapid.Generator[[]Op] {
 				}
 			case KDrop:
 				op.Idx = pickIdx(t, sh, !invalid)
+				dropExisted = sh.idx[op.Idx] != nil
 				delete(sh.idx, op.Idx)
 			case KAdd:
 				op.Idx = pickIdx(t, sh, !invalid || rapid.Bool().Draw(t, "inv-idx-ok"))
@@ -587,6 +590,33 @@ func GenHistory(p GenParams) *rapid.Generator[[]Op] {
 				op.Task = rapid.SampledFrom([]string{"vacuum", "refine", "vacuum"}).Draw(t, "task")
 			}
 			ops = append(ops, op)
+			// re-creation of a dropped index under the same name, followed by writes to it
+			if op.K == KDrop && dropExisted && p.RecreatePct > 0 && rapid.IntRange(0, 99).Draw(t, "recreate") < p.RecreatePct {
+				cfg := genCfg(t, p)
+				if validCombo(cfg.Metric, cfg.Prec) {
+					ops = append(ops, Op{K: KCreate, Idx: op.Idx, Cfg: cfg})
+					si := &shadowIdx{cfg: *cfg, live: map[string]bool{}, dead: map[string]bool{}}
+					sh.idx[op.Idx] = si
+					for j, n := 0, rapid.IntRange(1, 3).Draw(t, "recreate-adds"); j < n; j++ {
+						id := pickID(t, si, "fresh")
+						ops = append(ops, Op{K: KAdd, Idx: op.Idx, ID: id, Vec: genVec(t, cfg.Dim), Meta: genMeta(t, p, cfg)})
+						si.live[id] = true
+					}
+				}
+			}
+			// warm-up: a batch takes the parallel insert path only when the index has already handed out at
+			// least efConstruction internal ids, so some small-efC indexes get 9 vectors right after creation
+			if op.K == KCreate && p.BigBatch && op.Cfg != nil && op.Cfg.EfC == 8 && op.Why == "" {
+				if si := sh.idx[op.Idx]; si != nil && len(si.live) == 0 && rapid.IntRange(0, 2).Draw(t, "warmup") == 0 {
+					w := Op{K: KBatch, Idx: op.Idx}
+					for j := 0; j < 9; j++ {
+						id := fmt.Sprintf("w%d", j)
+						w.Items = append(w.Items, Item{ID: id, Vec: genVec(t, si.cfg.Dim), Meta: genMeta(t, p, &si.cfg)})
+						si.live[id] = true
+					}
+					ops = append(ops, w)
+				}
+			}
 		}
 		if p.ForceRestart && !sawRestart {
 			ops = append(ops, Op{K: KRestart})
